@@ -207,6 +207,13 @@ class TemplateData(object):
             self.waiting_for_qa_info_meaning = False
             self.waiting_for_1st_order_stats_meaning = False
             self.waiting_for_difference_stats_meaning = False
+            # The meaning nodes (031021, 008023, 008024) are defined by each
+            # subset itself. Forget those of the previous subset.
+            for name in ('associated_field_meaning',
+                         'first_order_stats_meaning',
+                         'difference_stats_meaning'):
+                if hasattr(self, name):
+                    delattr(self, name)
 
             self.wire_members(self.template.members)
 
